@@ -119,6 +119,10 @@ typedef struct Run {
     unsigned       cb_count; /* number of programs */
     unsigned       cb_calls; /* callbacks seen so far */
     int            edns;
+    /* how the hook's `const CErr *err` variable is kept: 0 = a fresh NULL one per call; 1 = ONE variable for
+     * the whole script, never reset and uninitialised at first (as the sample hook in c_hook.c does) */
+    int            persist;
+    const CErr    *perr;
 } Run;
 
 static void
@@ -154,6 +158,9 @@ rdn(Run *r, size_t n)
 static void
 lg_ret(Run *r, int ret, const CErr *err, int null_err)
 {
+    if (r->persist && null_err != 1) {
+        r->perr = err; /* the variable keeps whatever the call left in it */
+    }
     lg8(r, ret == 0 ? 0 : (ret == -1 ? 1 : 2));
     if (null_err == 1) {
         /* the hook passed err == NULL (as the sample hook does): nothing to retrieve */
@@ -235,7 +242,7 @@ record_ops(Run *r, void *it, unsigned nops)
             size_t         len = rd16(r);
             const uint8_t *p   = rdn(r, len);
             Fenced         f   = fenced_new(len);
-            const CErr    *err = NULL;
+            const CErr    *err = r->perr;
             int            ret;
             memcpy(f.buf, p, len);
             ret = r->t->set_raw_name(it, ne ? NULL : &err, f.buf, len);
@@ -252,7 +259,7 @@ record_ops(Run *r, void *it, unsigned nops)
             const uint8_t *z    = rdn(r, zlen);
             Fenced         fn   = fenced_new(nlen);
             Fenced         fz   = fenced_new(zlen);
-            const CErr    *err  = NULL;
+            const CErr    *err  = r->perr;
             int            ret;
             memcpy(fn.buf, n, nlen);
             memcpy(fz.buf, z, zlen);
@@ -264,7 +271,7 @@ record_ops(Run *r, void *it, unsigned nops)
         }
         case 10: { /* DELETE nullerr */
             int         ne  = rd8(r);
-            const CErr *err = NULL;
+            const CErr *err = r->perr;
             int         ret = r->t->delete_rr(it, ne ? NULL : &err);
             lg8(r, 0x1a);
             lg_ret(r, ret, err, ne);
@@ -316,6 +323,10 @@ cdrv_run(const FnTable *t, ParsedPacket *pp, const uint8_t *script, size_t scrip
             break;
         }
         switch (op) {
+        case 13: /* ERRMODE m */
+            r.persist = rd8(&r);
+            r.perr    = r.persist ? (const CErr *) (uintptr_t) 0x1 : NULL; /* "uninitialised": never to be read by the table */
+            break;
         case 1: lg8(&r, 1); lg32(&r, t->flags(pp)); break;
         case 2: t->set_flags(pp, rd32(&r)); lg8(&r, 2); break;
         case 3: lg8(&r, 3); lg8(&r, t->rcode(pp)); break;
@@ -364,7 +375,7 @@ cdrv_run(const FnTable *t, ParsedPacket *pp, const uint8_t *script, size_t scrip
             size_t         len = rd16(&r);
             const uint8_t *p   = rdn(&r, len);
             Fenced         f   = fenced_new(len + 1);
-            const CErr    *err = NULL;
+            const CErr    *err = r.perr;
             int            ret;
             memcpy(f.buf, p, len);
             f.buf[len] = 0;
@@ -418,7 +429,7 @@ cdrv_run(const FnTable *t, ParsedPacket *pp, const uint8_t *script, size_t scrip
             bool           suf  = rd8(&r) != 0;
             Fenced         ft   = fenced_new(tlen);
             Fenced         fs   = fenced_new(slen);
-            const CErr    *err  = NULL;
+            const CErr    *err  = r.perr;
             int            ret;
             memcpy(ft.buf, tn, tlen);
             memcpy(fs.buf, sn, slen);
@@ -435,7 +446,7 @@ cdrv_run(const FnTable *t, ParsedPacket *pp, const uint8_t *script, size_t scrip
             Fenced         in  = fenced_new(len);
             Fenced         out = fenced_new(DNS_MAX_HOSTNAME_LEN + 1);
             size_t         raw_len = 0xdddd;
-            const CErr    *err = NULL;
+            const CErr    *err = r.perr;
             int            ret;
             memcpy(in.buf, p, len);
             ret = t->raw_name_from_str(out.buf, &raw_len, ne ? NULL : &err, (const char *) in.buf, len);
